@@ -1,6 +1,7 @@
 """C20 — Autocorrelation helpers compute the documented normalised autocorrelation (partial: FFT numerics are runtime)."""
 from checks import big_scale
-LEAN_TARGETS = ["QmcProps.C20", "drv_c20"]
+from checks import extra_c20fft
+LEAN_TARGETS = ["QmcProps.C20", "drv_c20", "QmcProps.C20FFT"]
 BINS = ["c20"]
 
 THEOREMS = [
@@ -62,10 +63,11 @@ def main(ck):
             cases = ck.harness("c20", [mode])
             ck.correspond(mode, "drv_c20", cases)
     ck.assumptions += [
-        "PARTIAL: the theorems are about the exact-arithmetic formula; the FFT route (rustfft forward, |.|^2, inverse, f64 rounding) is compared numerically (1e-9) on every run, not proved; the Wiener-Khinchin identity is not formalised",
+        "PARTIAL: the theorems are about exact arithmetic; the FFT route as the code writes it (forward DFT, norm_sqr, unnormalised inverse DFT, divisions) is PROVED equal to the direct circular sum for all lengths and inputs (Wiener-Khinchin, QmcProps/C20FFT.lean: wiener_khinchin, fft_route_eq_direct); that rustfft computes the DFT it documents and the f64 rounding of the route are compared numerically (1e-9) on every run, not proved",
         "columns are non-constant and there is at least one sample and one observable (otherwise NaN / panic: documented, run once in mode edge)",
         "sampling period >= 1; mapper returns rows of equal length; spin-product variables are in range",
     ]
     ck.extra_trusted += ["rustfft and f64 rounding of the FFT route (observed to 1e-9, not modelled)"]
+    extra_c20fft.run(ck)   # Wiener-Khinchin: the FFT pipeline of the code = the direct-sum model (audited theorems)
     big_scale.run(ck, "longrun.autocorr")   # large-scale regime (>65536 bonds/ops/slots, release semantics): model-free oracles of the property statements
     return ck.finish(RULE)
